@@ -25,6 +25,9 @@ TABLE = [
     (C("Madgwick", "IMU", gain="high"), {"gain": 0.5}, (0, 0, 1), None, "B", 2400, 2e-2, "batch"),
     (C("Madgwick", "MARG"), {"gain": 0.041}, (0, 0, 1), (1 / S5, 0, 2 / S5), "B", 30000, 3e-3, "stream"),
     (C("Madgwick", "MARG", gain="high"), {"gain": 0.5}, (0, 0, 1), (1 / S5, 0, 2 / S5), "B", 3000, 2e-2, "stream"),
+    # a field that points UP (negative inclination, as in the southern magnetic hemisphere)
+    (C("Madgwick", "MARG", gain="high"), {"gain": 0.5}, (0, 0, 1), (2 / S5, 0, -1 / S5), "B", 3000, 2e-2, "stream"),
+    (C("AQUA", "MARG", mode="fixed"), {}, (0, 0, 1), (2 / S5, 0, -1 / S5), "A", 5000, 1e-3, "batch"),
     (C("Mahony", "IMU"), {}, (0, 0, 1), None, "B", 8000, 1e-3, "batch"),
     (C("Mahony", "MARG"), {}, (0, 0, 1), (0, 1 / S5, 2 / S5), "B", 50000, 1.5e-3, "batch"),
     # a brisk proportional gain at a low rate (k_P Dt = 0.4: well inside the stable range k_P Dt < 2 of the explicit step)
@@ -59,7 +62,7 @@ def qmul(p, q):
 def one_run(args):
     ti, u, axis, deg, seed, silent = args
     cfg, extra, gref, href, typ, budget, tol, route = TABLE[ti]
-    cname = name_of(cfg) + ("|" + "|".join("%s=%s" % kv for kv in sorted(extra.items()) if kv[0] in ("gain", "k_P", "frequency")) if extra else "")
+    cname = name_of(cfg) + ("|" + "|".join("%s=%s" % kv for kv in sorted(extra.items()) if kv[0] in ("gain", "k_P", "frequency")) if extra else "") + ("|field-pointing-up" if (href is not None and href[2] * gref[2] < 0) else "")
     t = Tally()
     t.traces = []
     R = core.g_rot(u)
